@@ -156,6 +156,17 @@ func (s *State) Bind(key string, t Term) *State {
 	return n
 }
 
+// Unbind returns a copy without the binding for key.
+func (s *State) Unbind(key string) *State {
+	if _, ok := s.Store[key]; !ok {
+		return s
+	}
+	n := s.clone()
+	n.Store = copyMap(s.Store, 0)
+	n.dropStore(key)
+	return n
+}
+
 func (s *State) bump(class string) *State {
 	if s.Seen[class] >= 2 {
 		return s
@@ -773,7 +784,7 @@ func (x *Exec) execAssign(st *State, s *ast.AssignStmt, env *Env) []*State {
 			}
 			lk := x.LocKey(c, l, env)
 			c = x.kill(c, lk, tok)
-			c = c.Bind(lk, val)
+			c = c.Bind(lk, val).Unbind("~" + lk)
 			c = x.Spec.Assign(x, c, l, rhs, val)
 		}
 		out = append(out, c)
@@ -833,6 +844,9 @@ func (x *Exec) assign(st *State, lhs, rhs ast.Expr, env *Env) []*State {
 		}
 		c = x.kill(c, lkey, x.Tok(lhs.Pos()))
 		c = c.Bind(lkey, val)
+		if val.K == KSym && !strings.ContainsAny(val.S, "{") {
+			c = c.Unbind("~" + lkey) // sub-locations are named after the bound value
+		}
 		for f, t := range fields {
 			c = c.Bind(lkey+"."+f, t)
 		}
@@ -1119,6 +1133,20 @@ func (x *Exec) valueTerm(st *State, e ast.Expr, env *Env) Term {
 		return Sym(x.canonEnv(v.Fun, env) + "(" + strings.Join(args, ",") + ")" + x.Tok(v.Pos()))
 	case *ast.BinaryExpr:
 		return Sym("(" + x.ValueName(st, v.X, env) + v.Op.String() + x.ValueName(st, v.Y, env) + ")")
+	case *ast.IndexExpr, *ast.SliceExpr:
+		// element / sub-slice of a variable that currently holds a named value
+		var base ast.Expr
+		if ie, ok := v.(*ast.IndexExpr); ok {
+			base = ie.X
+		} else {
+			base = v.(*ast.SliceExpr).X
+		}
+		if id, ok := ast.Unparen(base).(*ast.Ident); ok && x.marked(st, key) == key {
+			bk := x.canonEnv(id, env)
+			if bt, ok := st.Store[bk]; ok && bt.K == KSym && bt.S != bk && strings.HasPrefix(key, bk) {
+				return Sym(bt.S + key[len(bk):])
+			}
+		}
 	}
 	return Sym(x.marked(st, key))
 }
@@ -1242,6 +1270,10 @@ func (x *Exec) GenericCallKill(st *State, call *ast.CallExpr, env *Env) *State {
 		switch callee.Pkg().Path() {
 		case "fmt", "log", "bytes", "strings", "time", "errors", "net", "math", "strconv", "hash/crc32":
 			return st // no writes through our pointers
+		case "encoding/binary":
+			if strings.HasPrefix(callee.Name(), "Uint") {
+				return st
+			}
 		}
 	}
 	c := st
@@ -1253,8 +1285,18 @@ func (x *Exec) GenericCallKill(st *State, call *ast.CallExpr, env *Env) *State {
 			continue
 		}
 		if t := x.P.TypeOf(a); t != nil {
-			if _, isPtr := t.Underlying().(*types.Pointer); isPtr {
+			switch t.Underlying().(type) {
+			case *types.Pointer:
 				c = x.Kill(c, x.canonEnv(a, env), true, x.Tok(call.Pos()))
+			case *types.Slice:
+				// the callee may write through the slice: forget its elements
+				base := a
+				if se, ok := a.(*ast.SliceExpr); ok {
+					base = ast.Unparen(se.X)
+				}
+				if _, isIdent := base.(*ast.Ident); isIdent {
+					c = x.Kill(c, x.canonEnv(base, env), true, x.Tok(call.Pos()))
+				}
 			}
 		}
 	}
@@ -1549,11 +1591,7 @@ func (x *Exec) evalCmp2(st *State, a ast.Expr, op token.Token, b ast.Expr, envA,
 			if dom := x.enumDom(typ); dom != nil {
 				v := "enum:" + sym.S
 				x.DeclareVar(v, dom)
-				var res []OutB
-				for _, r := range x.Resolve(st, Ref(v)) {
-					res = append(res, OutB{r.St, (r.V == cst.S) == (op == token.EQL)})
-				}
-				return res
+				return x.enumTest(st, v, cst.S, op == token.EQL)
 			}
 		}
 	}
@@ -1597,6 +1635,41 @@ func (x *Exec) evalCmp2(st *State, a ast.Expr, op token.Token, b ast.Expr, envA,
 		res = append(res, OutB{r.St, OrdHolds(r.V, op)})
 	}
 	return res
+}
+
+// enumTest evaluates v == k over lazily refined values: a cube value is
+// either one constant, or "!a,b,..." meaning "none of a, b, ...".
+func (x *Exec) enumTest(st *State, v, k string, wantEq bool) []OutB {
+	cur, ok := st.Cube[v]
+	res := func(s *State, eq bool) OutB { return OutB{s, eq == wantEq} }
+	if !ok {
+		return []OutB{res(st.With(v, k), true), res(st.With(v, "!"+k), false)}
+	}
+	if !strings.HasPrefix(cur, "!") {
+		return []OutB{res(st, cur == k)}
+	}
+	excluded := strings.Split(cur[1:], ",")
+	for _, e := range excluded {
+		if e == k {
+			return []OutB{res(st, false)}
+		}
+	}
+	excluded = append(excluded, k)
+	sort.Strings(excluded)
+	return []OutB{res(st.With(v, k), true), res(st.With(v, "!"+strings.Join(excluded, ",")), false)}
+}
+
+// EnumIs reports whether a (possibly negative) enum cube value can be k.
+func EnumIs(val, k string) bool {
+	if !strings.HasPrefix(val, "!") {
+		return val == k
+	}
+	for _, e := range strings.Split(val[1:], ",") {
+		if e == k {
+			return false
+		}
+	}
+	return true
 }
 
 // enumDom returns the named constants of an enum-like type of the analysed
